@@ -27,6 +27,17 @@ def check(ctx):
     ctx.guard(r044_thresholder, ctx, "R10.6")
     ctx.guard(r103, ctx)
     ctx.guard(_shared_c10, ctx)
+    # what the pmf is computed from: the stored classifiers' own predictions on this X (no cache across calls), the score of the
+    # configured predict_method, and sensitive-feature keys built by the same merge test at fit and predict time
+    ctx.rule("R10.7", "ExponentiatedGradient's stored hypotheses evaluate the classifier on the X they are given (shared with C08 R08.13); "
+                      "ThresholdOptimizer wires estimator, table, prefit and predict_method into the thresholder (shared with C04 R04.8); "
+                      "multi-column sensitive features are merged under one test at fit and predict time (shared with C13 R13.3)")
+    from .c08 import r0813_callable
+    from .c04 import r048_wiring
+    from .c13 import r133_merge_test
+    ctx.aliased({"R08.13": "R10.7"}, r0813_callable, ctx)
+    ctx.guard(r048_wiring, ctx, "R10.7")
+    ctx.guard(r133_merge_test, ctx, "R10.7")
 
 def _is_complement_pair(A, t: T):
     """t is [1 - p, p] in one of the accepted container spellings; returns p or None."""
